@@ -719,6 +719,23 @@ func (e *Engine) directWrites(f *ssa.Function, in ssa.Instruction, d *modSet) {
 		d.keys[k+"#p"] = true
 		e.keySorts[k] = mapSort(in.Map.Type())
 		e.keySorts[k+"#p"] = mapPresentSort(in.Map.Type())
+	case *ssa.Next:
+		// iterating over a map advances the ghost set of keys already visited
+		if !in.IsString {
+			if r, ok := in.Iter.(*ssa.Range); ok {
+				if _, isMap := r.X.Type().Underlying().(*types.Map); isMap {
+					k := mapKey(r.X.Type()) + "#visited"
+					d.keys[k] = true
+					e.keySorts[k] = mapPresentSort(r.X.Type())
+				}
+			}
+		}
+	case *ssa.Range:
+		if _, isMap := in.X.Type().Underlying().(*types.Map); isMap {
+			k := mapKey(in.X.Type()) + "#visited"
+			d.keys[k] = true
+			e.keySorts[k] = mapPresentSort(in.X.Type())
+		}
 	case ssa.CallInstruction:
 		cc := in.Common()
 		if b, ok := cc.Value.(*ssa.Builtin); ok {
